@@ -254,8 +254,28 @@ def header_event(inst, rng, prop="C03"):
         ev["exc"] = "%s: %s" % (type(e).__name__, str(e)[:100])
         ev["obs"] = [{"name": n, "items": []} for n, _ in names]
         ev["text"] = out.getvalue()[:3000]
+        ev["wsecs"], ev["wlines"] = [], []
         return ev
     ev["text"] = out.getvalue()[:4000]
+    # what the formatter saw (the object after write()) and the lines it produced, for the algorithm-layer comparison
+    titles = {"~Well": "Well", "~Curve": "Curves", "~Params": "Parameter"}
+    written = {}
+    cur = None
+    for ln in out.getvalue().split("\n"):
+        if ln.startswith("~"):
+            cur = next((v for k, v in titles.items() if ln.startswith(k)), None)
+            if cur:
+                written[cur] = []
+        elif cur:
+            written[cur].append(ln)
+    ev["wsecs"], ev["wlines"] = [], []
+    for n, sec_obj in (("Well", las.well), ("Curves", las.curves), ("Parameter", las.params)):
+        its = list(list.__iter__(sec_obj))
+        if len(written.get(n, [])) != len(its):
+            continue
+        ev["wsecs"].append({"name": n, "items": [{"o": codes(it.original_mnemonic), "u": codes(str(it.unit)), "v": codes(str(it.value)),
+                                                  "d": codes(str(it.descr)), "up": it.original_mnemonic.upper()} for it in its]})
+        ev["wlines"].append([codes(x) for x in written[n]])
     for n, _ in names:
         s = back.sections[n]
         ev["obs"].append({"name": n, "items": [proj_item(it) for it in list.__iter__(s)
